@@ -250,6 +250,11 @@ func (dlv *Delivery) Calculate() error {
 	if dlv.Regime.IsEmpty() {
 		dlv.SetRegime(partyTaxCountry(dlv.Supplier))
 	}
+	// see Invoice.Calculate: customer rates must be in place before the
+	// normalisers look at the tax combos
+	if dlv.HasTags(tax.TagCustomerRates) {
+		applyCustomerRates(dlv)
+	}
 	dlv.Normalize(dlv.normalizers())
 	return calculate(dlv)
 }
